@@ -1,7 +1,21 @@
 /-
   C11 (generated-code level) — the translated scaling routines `bid128_scalbn_clear_status`, `bid128_ldexp_clear_status`
   (`DecGen/Code.lean`, from bid128_scalbn.rs / bid128_ldexp.rs) and, through them, `bid128_scalbn`, `bid128_ldexp`,
-  `bid128_scalbln`, against the specification-level `Dec.scalebD` with the judge's NaN rule.
+  `bid128_scalbln`, against the specification-level `Dec.scalebD` with the judge's NaN rule (`scalebSpec`).
+
+  Headline: `scalbn_spec`, `ldexp_spec`, `scalbln_spec` — for ALL patterns, counts, modes and incoming status words the
+  routine returns `.ok (ofBits (encode S.1), f ||| UInt32.ofNat S.2)` with `S = scalebSpec (md m) n (decode (bitsOf x))`
+  (`scalbn_cs_spec`, `ldexp_cs_spec` for the inner routines from a clear status word).  No deviation from `scalebD` was
+  found.
+
+  Route: the unpacker by `C13GenPack.unpack_value_spec`; the control flow scenario by scenario (`scn_special`, `scn_zero`,
+  `scn_in_range`, `scn_negative`, `scn_over_full`, `scn_over_pad`), with the exponent sum `exponent_x as i64 + n as i64`
+  shown free of wrap-around and the `u32` range test on its `i32` truncation equivalent to `0 ≤ sum ≤ 12287`
+  (`e64_toInt`, `u32_test`); the padding loop (a `for _ in [0:4096]` with a `brk__` marker) by `forIn_range_dowhile` and
+  `doIter_spec`: it stops through `break` after `j ≥ 1` turns at the first `j` with `C·10^j ≥ 10^33` or sum − j = 12287;
+  `bid_get_BID128` by `get_code_finish` (from `C13GenPack.get_bridge` and `get_bits_finish`: the result is the canonical
+  encoding of `finish`'s datum) and `get_code_max` (exponent `0x7fffffff`: the overflow result); the specification side
+  by `finish_in_range`, `finish_pad`, `finish_ovf` of `C13PackHelpers`.
 -/
 import DecProofs.Properties.C13GenPack
 import DecProofs.Properties.C06GenFromInt
@@ -365,11 +379,13 @@ theorem scn_over_pad (x : U128) (n : Int32) (m : RoundingMode) (r sg : UInt64) (
   have hlt : lt1033 co = true := by rw [lt1033_iff, decide_eq_true_eq]; exact hc
   unfold lt1033 at hlt
   -- the loop
-  have h33 : 10 ^ 33 ≤ bitsOf co * 10 ^ 4096 := by
-    have : (10 : Nat) ^ 33 ≤ 10 ^ 4096 := Nat.pow_le_pow_right (by decide) (by decide)
-    calc 10 ^ 33 ≤ 10 ^ 4096 := this
-      _ = 1 * 10 ^ 4096 := (Nat.one_mul _).symm
-      _ ≤ bitsOf co * 10 ^ 4096 := Nat.mul_le_mul_right _ hc0
+  have key : ∀ k : Nat, 33 ≤ k → 10 ^ 33 ≤ bitsOf co * 10 ^ k := by
+    intro k hk
+    have : (10 : Nat) ^ 33 ≤ 10 ^ k := Nat.pow_le_pow_right (by decide) hk
+    calc 10 ^ 33 ≤ 10 ^ k := this
+      _ = 1 * 10 ^ k := (Nat.one_mul _).symm
+      _ ≤ bitsOf co * 10 ^ k := Nat.mul_le_mul_right _ hc0
+  have h33 := key 4096 (by decide)
   obtain ⟨j, c', c2, c8, E', e', hit, hj, hbits, hE, he, hprev, hge, hstop⟩ :=
     doIter_spec 4096 (co, default, default, Int64.ofInt (toI ex) + Int64.ofInt (toI n),
       Int32.ofInt (toI (Int64.ofInt (toI ex) + Int64.ofInt (toI n))), false) hc0 hc h33
@@ -502,5 +518,303 @@ theorem get_code_max (sg : UInt64) (c : U128) (m : RoundingMode)
   rw [hcode, eq_ofBits res _ hp, u32_eq_ofNat fl _ hq]
   have := overflow_words sg.toNat (md m) hs'
   rw [this, hd, Nat.zero_or]
+
+open Dec.C06GenFromInt (ofBits ofBits_bitsOf bitsOf_ofBits)
+
+/-! ## 3. Words of the front end -/
+
+theorem sign_facts (sg : UInt64) (s : Bool) (h : sg.toNat = signWord s) :
+    (sg = 0 ∨ sg = 0x8000000000000000) ∧ decide (sg ≠ 0) = s := by
+  unfold signWord at h
+  cases s
+  · have : sg = 0 := by rw [← UInt64.toNat_inj]; simpa using h
+    subst this; exact ⟨Or.inl rfl, by decide⟩
+  · have : sg = 0x8000000000000000 := by rw [← UInt64.toNat_inj]; simpa using h
+    subst this; exact ⟨Or.inr rfl, by decide⟩
+
+/-- the packing expression of `bid_get_BID128_very_fast`, as the canonical encoding -/
+theorem pack_eq_ofBits (sg : UInt64) (E : Int32) (co : U128) (hs : sg = 0 ∨ sg = 0x8000000000000000)
+    (h0 : 0 ≤ E.toInt) (h1 : E.toInt ≤ 12287) (hC : bitsOf co < 10 ^ 34) :
+    ({ w0 := co.w0, w1 := sg ||| UInt64.ofInt (toI E) <<< 49 ||| co.w1 } : U128)
+      = ofBits (encode (.fin (decide (sg ≠ 0)) (bitsOf co) (E.toInt - 6176))) := by
+  obtain ⟨r, hr, hb, _⟩ := C13GenPack.get_very_fast_spec sg E co hs h0 h1 hC
+  rw [very_fast_eq] at hr
+  injection hr with hr
+  rw [hr, ← hb]
+  exact (ofBits_bitsOf r).symm
+
+/-- clearing the signalling bit: `& QUIET_MASK64` -/
+theorem mask_quiet (x : Nat) (hx : x < 2 ^ 64) : x &&& 0xfdffffffffffffff = (x / 2 ^ 58 % 2 ^ 6) * 2 ^ 58 + x % 2 ^ 57 := by
+  have : (0xfdffffffffffffff : Nat) = (2 ^ 6 - 1) * 2 ^ 58 ||| (2 ^ 57 - 1) := by decide
+  rw [this, Nat.and_or_distrib_left, and_field, and_low, Nat.mul_comm]
+  exact or_eq_add_of_lt 58 _ _ (lt_of_lt_of_le (Nat.mod_lt _ (by norm_num)) (by norm_num))
+
+theorem quiet_toNat : c_QUIET_MASK64.toNat = 0xfdffffffffffffff := by decide
+
+set_option maxRecDepth 8000 in
+/-- infinity or NaN: the unpacked canonical words, quieted, are the canonical encoding of the quieted datum, and the
+high word is not zero -/
+theorem special_words (co : U128) (d : Datum) (hW : d.WF) (hfin : d.isFin = false) (hco : pr co = w128 (encode d)) :
+    (co.w1 == 0) = false ∧
+      ({ w0 := co.w0, w1 := co.w1 &&& c_QUIET_MASK64 } : U128) = ofBits (encode (quietNaN d)) := by
+  have h0 : co.w0.toNat = encode d % 2 ^ 64 := congrArg Prod.fst hco
+  have h1 : co.w1.toNat = encode d / 2 ^ 64 := congrArg Prod.snd hco
+  have hlt := co.w1.toNat_lt
+  have hw : bitsOf ({ w0 := co.w0, w1 := co.w1 &&& c_QUIET_MASK64 } : U128)
+      = (encode d / 2 ^ 64 / 2 ^ 58 % 2 ^ 6 * 2 ^ 58 + encode d / 2 ^ 64 % 2 ^ 57) * 2 ^ 64 + encode d % 2 ^ 64 := by
+    have hlt' : encode d / 2 ^ 64 < 2 ^ 64 := by rw [← h1]; exact hlt
+    simp only [bitsOf, UInt64.toNat_and, quiet_toNat, h0, h1]
+    rw [mask_quiet _ hlt']
+  have hz : (co.w1 == 0) = decide (encode d / 2 ^ 64 = 0) := by rw [u64_beq_zero, h1]
+  rw [hz, ← ofBits_bitsOf ({ w0 := co.w0, w1 := co.w1 &&& c_QUIET_MASK64 } : U128)]
+  have hb : C06GenFromInt.bitsOf ({ w0 := co.w0, w1 := co.w1 &&& c_QUIET_MASK64 } : U128)
+      = bitsOf ({ w0 := co.w0, w1 := co.w1 &&& c_QUIET_MASK64 } : U128) := rfl
+  rw [hb, hw]
+  cases d with
+  | fin s c e => exact Bool.noConfusion hfin
+  | inf s =>
+    cases s <;> simp only [encode, signBit, quietNaN, Bool.false_eq_true, if_false, if_true] <;>
+      exact ⟨by decide +kernel, by decide +kernel⟩
+  | nan s g p =>
+    have hp : p < 10 ^ 33 := by simpa [Datum.WF, P33_eq'] using hW
+    cases s <;> cases g <;> simp only [encode, signBit, quietNaN, Bool.false_eq_true, if_false, if_true] <;>
+      (refine ⟨by rw [decide_eq_false_iff_not]; omega, ?_⟩) <;> (apply congrArg ofBits)
+    all_goals
+      clear hW hfin hco h0 h1 hlt hw hz hb
+      simp only [Nat.reducePow, Nat.reduceMul, Nat.reduceAdd, Nat.zero_add, Nat.add_zero] at hp ⊢
+      omega
+
+/-! ## 4. The scaling routines against `scalebD` -/
+
+/-- what the judge expects of `scaleb` / `ldexp`: the NaN rule (a NaN operand comes back quieted and canonical, invalid
+iff it was signalling), otherwise `scalebD` -/
+def scalebSpec (mode : Mode) (n : Int) (d : Datum) : Datum × Flags :=
+  if d.isNaN then (quietNaN d, if d.isSNaN then fInvalid else 0) else scalebD mode n d
+
+theorem frontFlags_eq (x : U128) :
+    frontFlags x = UInt32.ofNat (if (decode (bitsOf x)).isSNaN then fInvalid else 0) := by
+  unfold frontFlags
+  have h := C06GenFromInt.snan_test_decode x
+  have e : c_SNAN_MASK64 = c_MASK_SNAN := rfl
+  have hb : C06GenFromInt.bitsOf x = bitsOf x := rfl
+  rw [hb] at h
+  rw [e, h]
+  cases (decode (bitsOf x)).isSNaN <;> rfl
+
+set_option maxHeartbeats 1000000 in
+/-- **`bid128_scalbn_clear_status` (translated source), all patterns, all `n`, all modes**, from a clear status word:
+never panics; returns the canonical encoding of the datum `scalebSpec` prescribes and exactly its flags.  In particular:
+a NaN comes back quieted and canonical (invalid iff signalling), an infinity canonical, a zero (also a non-canonical one)
+with the exponent sum clamped into range, a finite non-zero `(−1)^s·c·10^e` as `finish mode s c 1 (e + n) (e + n)` — the
+exponent sum is formed without wrap-around, exact results keep their coefficient (padded with zeros under the clamp at
+the top: the repaired D3), everything else is one correct rounding at the minimum exponent, or the overflow result. -/
+theorem scalbn_cs_spec (x : U128) (n : Int32) (m : RoundingMode) :
+    bid128_scalbn_clear_status x n m 0 =
+      .ok (ofBits (encode (scalebSpec (md m) n.toInt (decode (bitsOf x))).1),
+           UInt32.ofNat (scalebSpec (md m) n.toInt (decode (bitsOf x))).2) := by
+  obtain ⟨r, sg, ex, co, hu, hsg, hmatch⟩ := C13GenPack.unpack_value_spec 0 0 default x
+  have hW := decode_WF (bitsOf x)
+  have hsn : ∀ d, decode (bitsOf x) = d → frontFlags x = UInt32.ofNat (if d.isSNaN then fInvalid else 0) := by
+    intro d hd; rw [frontFlags_eq, hd]
+  cases hd : decode (bitsOf x) with
+  | nan s g p =>
+    rw [hd] at hmatch hW hsg
+    obtain ⟨hex, hr, hco⟩ := hmatch
+    subst hr
+    obtain ⟨hz, hwords⟩ := special_words co _ hW rfl hco
+    rw [scn_special x n m sg ex co hu hz, hwords, hsn _ hd]
+    rfl
+  | inf s =>
+    rw [hd] at hmatch hW hsg
+    obtain ⟨hex, hr, hco⟩ := hmatch
+    subst hr
+    obtain ⟨hz, hwords⟩ := special_words co _ hW rfl hco
+    rw [scn_special x n m sg ex co hu hz, hwords, hsn _ hd]
+    rfl
+  | fin s c e =>
+    rw [hd] at hmatch hW hsg
+    obtain ⟨hex, hco, hrc⟩ := hmatch
+    obtain ⟨hc34, hemin, hemax⟩ : c < 10 ^ 34 ∧ -6176 ≤ e ∧ e ≤ 6111 := by
+      simpa [Datum.WF, P34_eq', eMin, eMax] using hW
+    obtain ⟨hs, hneg⟩ := sign_facts sg s hsg
+    have hbits : bitsOf co = c := by
+      have := w128_val c
+      rw [← hco] at this
+      rw [bitsOf_eq]; exact this
+    have hexr : 0 ≤ ex.toInt ∧ ex.toInt ≤ 12287 := by omega
+    by_cases hc : c = 0
+    · -- a zero
+      have hr : r = 0 := by
+        by_contra h; exact (hrc.1 h) hc
+      subst hr
+      have hz : (co.w1 == 0) = true := by
+        rw [u64_beq_zero, decide_eq_true_eq]
+        have : co.w1.toNat = c / 2 ^ 64 := congrArg Prod.snd hco
+        rw [this, hc, Nat.zero_div]
+      rw [scn_zero x n m sg ex co hu hz, hsn _ hd]
+      have hE : ∀ E : Int, 0 ≤ E → E ≤ 12287 → (Int32.ofInt E).toInt = E := fun E a b =>
+        Int32.toInt_ofInt_of_le (by omega) (by omega)
+      have hspec : scalebSpec (md m) n.toInt (.fin s c e) = (zeroAt s (e + n.toInt), 0) := by
+        unfold scalebSpec scalebD; simp [Datum.isNaN, hc]
+      rw [hspec]
+      simp only [Datum.isSNaN, Bool.false_eq_true, if_false]
+      unfold zeroAt clampInt eMin eMax
+      by_cases h1 : ex.toInt + n.toInt < 0
+      · rw [if_pos h1, if_pos (by omega),
+          pack_eq_ofBits sg _ co hs (by rw [hE 0 (by omega) (by omega)]) (by rw [hE 0 (by omega) (by omega)]; omega)
+            (by omega), hE 0 (by omega) (by omega), hbits, hneg, hc]
+        rfl
+      · by_cases h2 : ex.toInt + n.toInt > 12287
+        · rw [if_neg h1, if_pos h2, if_neg (by omega), if_pos (by omega),
+            pack_eq_ofBits sg _ co hs (by rw [hE 12287 (by omega) (by omega)]; omega)
+              (by rw [hE 12287 (by omega) (by omega)]) (by omega), hE 12287 (by omega) (by omega), hbits, hneg, hc]
+          rfl
+        · rw [if_neg h1, if_neg h2, if_neg (by omega), if_neg (by omega),
+            pack_eq_ofBits sg _ co hs (by rw [hE _ (by omega) (by omega)]; omega)
+              (by rw [hE _ (by omega) (by omega)]; omega) (by omega), hE _ (by omega) (by omega), hbits, hneg, hc]
+          have : ex.toInt + n.toInt - 6176 = e + n.toInt := by omega
+          rw [this]
+    · -- finite, non-zero
+      have hr : (r == 0) = false := by
+        rw [u64_beq_zero, decide_eq_false_iff_not, ← u64_eq_zero]; exact hrc.2 hc
+      have hc0 : 0 < c := Nat.pos_of_ne_zero hc
+      have hspec : scalebSpec (md m) n.toInt (.fin s c e)
+          = finish (md m) s c 1 (ex.toInt + n.toInt - 6176) (ex.toInt + n.toInt - 6176) := by
+        unfold scalebSpec scalebD; simp only [Datum.isNaN, Bool.false_eq_true, if_false, hc]
+        have : e + n.toInt = ex.toInt + n.toInt - 6176 := by omega
+        rw [this]
+      rw [hspec]
+      have hnorm : ∀ E : Int, norm34 c E = (c, E) := by
+        intro E; unfold norm34; rw [if_neg (by omega)]
+      have a1 := n.toInt_lt; have a2 := n.le_toInt
+      by_cases h1 : ex.toInt + n.toInt < 0
+      · -- underflow side
+        rw [scn_negative x n m r sg ex co hu hr hexr h1]
+        have hE : (Int32.ofInt (ex.toInt + n.toInt)).toInt = ex.toInt + n.toInt :=
+          Int32.toInt_ofInt_of_le (by omega) (by omega)
+        rw [get_code_finish sg _ co m hs (by omega) (by omega) (by rw [hE]; omega), hE, hbits, hneg]
+      · by_cases h2 : ex.toInt + n.toInt ≤ 12287
+        · -- in range
+          rw [scn_in_range x n m r sg ex co hu hr hexr (by omega) h2]
+          have hE : (Int32.ofInt (ex.toInt + n.toInt)).toInt = ex.toInt + n.toInt :=
+            Int32.toInt_ofInt_of_le (by omega) (by omega)
+          rw [pack_eq_ofBits sg _ co hs (by rw [hE]; omega) (by rw [hE]; exact h2) (by omega), hE, hbits, hneg,
+            finish_in_range (md m) s c (ex.toInt + n.toInt) hc0 (by omega) (by rw [hnorm]; simp; omega)
+              (by rw [hnorm]; simpa using h2), hnorm]
+          rfl
+        · -- overflow side
+          have h3 : ex.toInt + n.toInt > 12287 := by omega
+          by_cases h33 : bitsOf co < 10 ^ 33
+          · obtain ⟨j, c', e', hj, hcb, hprev, hge, hstop, hcode⟩ :=
+              scn_over_pad x n m r sg ex co hu hr hexr h3 (by omega) h33
+            rw [hcode, hbits] at *
+            by_cases hle : ex.toInt + n.toInt - (j : Int) ≤ 12287
+            · -- padded exactly to the maximum exponent
+              have hjk : ((ex.toInt + n.toInt) - 12287).toNat = j := by omega
+              have hc'34 : bitsOf c' < 10 ^ 34 := by
+                rw [hcb]
+                obtain ⟨i, rfl⟩ : ∃ i, j = i + 1 := ⟨j - 1, by omega⟩
+                simp only [Nat.add_sub_cancel] at hprev
+                rw [Nat.pow_succ, ← Nat.mul_assoc]; omega
+              have hE : (Int32.ofInt 12287).toInt = 12287 := by decide
+              rw [if_pos hle, pack_eq_ofBits sg _ c' hs (by rw [hE]; omega) (by rw [hE]) hc'34, hE, hcb, hneg,
+                finish_pad (md m) s c (ex.toInt + n.toInt) hc0 (by rw [hnorm]; simpa using h3)
+                  (by rw [hnorm]; simp only; rw [hjk, ← hcb]; exact hc'34), hnorm]
+              simp only [hjk]
+              rfl
+            · -- still too large: overflow
+              have hc'33 : 10 ^ 33 ≤ bitsOf c' := by
+                by_contra h; exact hstop ⟨by omega, by omega⟩
+              have hc'34 : bitsOf c' < 10 ^ 34 := by
+                rw [hcb]
+                obtain ⟨i, rfl⟩ : ∃ i, j = i + 1 := ⟨j - 1, by omega⟩
+                simp only [Nat.add_sub_cancel] at hprev
+                rw [Nat.pow_succ, ← Nat.mul_assoc]; omega
+              rw [if_neg hle, get_code_max sg c' m hs (by omega) hc'34, hneg,
+                finish_ovf (md m) s c (ex.toInt + n.toInt) hc0 (by rw [hnorm]; simpa using h3) ?_]
+              rw [hnorm]; simp only
+              intro hlt
+              obtain ⟨d, hd'⟩ : ∃ d : Nat, ((ex.toInt + n.toInt) - 12287).toNat = j + (d + 1) :=
+                ⟨((ex.toInt + n.toInt) - 12287).toNat - j - 1, by omega⟩
+              rw [hd', Nat.pow_add, ← Nat.mul_assoc, ← hcb, Nat.pow_succ] at hlt
+              have : 1 ≤ 10 ^ d := Nat.pow_pos (by decide)
+              have : bitsOf c' * 1 ≤ bitsOf c' * 10 ^ d := Nat.mul_le_mul_left _ this
+              nlinarith
+          · -- a 34-digit coefficient: overflow at once
+            rw [scn_over_full x n m r sg ex co hu hr hexr h3 (by rw [lt1033_iff, decide_eq_false_iff_not]; exact h33),
+              get_code_max sg co m hs (by omega) (by omega), hneg,
+              finish_ovf (md m) s c (ex.toInt + n.toInt) hc0 (by rw [hnorm]; simpa using h3) ?_]
+            rw [hnorm]; simp only
+            intro hlt
+            have hk : 1 ≤ ((ex.toInt + n.toInt) - 12287).toNat := by omega
+            have : 10 ^ 1 ≤ 10 ^ ((ex.toInt + n.toInt) - 12287).toNat := Nat.pow_le_pow_right (by decide) hk
+            rw [hbits] at h33
+            nlinarith
+
+/-- the two inner routines are the same code -/
+theorem ldexp_cs_eq (x : U128) (n : Int32) (m : RoundingMode) (f : UInt32) :
+    bid128_ldexp_clear_status x n m f = bid128_scalbn_clear_status x n m f := by
+  unfold bid128_ldexp_clear_status bid128_scalbn_clear_status
+  rfl
+
+/-- **`bid128_ldexp_clear_status`**: the same statement -/
+theorem ldexp_cs_spec (x : U128) (n : Int32) (m : RoundingMode) :
+    bid128_ldexp_clear_status x n m 0 =
+      .ok (ofBits (encode (scalebSpec (md m) n.toInt (decode (bitsOf x))).1),
+           UInt32.ofNat (scalebSpec (md m) n.toInt (decode (bitsOf x))).2) := by
+  rw [ldexp_cs_eq, scalbn_cs_spec]
+
+/-- **`bid128_scalbn` (translated source)**: for every pattern `x`, every `n`, every mode and every incoming status word
+`f`: never panics; the result is the canonical encoding of `scalebSpec`'s datum and the status word is `f` with
+`scalebSpec`'s flags ORed in — independent of what `f` held (the D4 repair). -/
+theorem scalbn_spec (x : U128) (n : Int32) (m : RoundingMode) (f : UInt32) :
+    bid128_scalbn x n m f =
+      .ok (ofBits (encode (scalebSpec (md m) n.toInt (decode (bitsOf x))).1),
+           f ||| UInt32.ofNat (scalebSpec (md m) n.toInt (decode (bitsOf x))).2) := by
+  rw [C06GenFromInt.scalbn_eq, scalbn_cs_spec]; rfl
+
+/-- **`bid128_ldexp` (translated source)**: likewise -/
+theorem ldexp_spec (x : U128) (n : Int32) (m : RoundingMode) (f : UInt32) :
+    bid128_ldexp x n m f =
+      .ok (ofBits (encode (scalebSpec (md m) n.toInt (decode (bitsOf x))).1),
+           f ||| UInt32.ofNat (scalebSpec (md m) n.toInt (decode (bitsOf x))).2) := by
+  rw [C06GenFromInt.ldexp_eq, ldexp_cs_spec]; rfl
+
+/-- **`bid128_scalbln` (translated source)**: the 64-bit count saturates to the `i32` range (it never wraps), then as
+`bid128_scalbn` -/
+theorem scalbln_spec (x : U128) (n : Int64) (m : RoundingMode) (f : UInt32) :
+    bid128_scalbln x n m f =
+      .ok (ofBits (encode (scalebSpec (md m) (clampI32 n.toInt) (decode (bitsOf x))).1),
+           f ||| UInt32.ofNat (scalebSpec (md m) (clampI32 n.toInt) (decode (bitsOf x))).2) := by
+  rw [C06GenFromInt.scalbln_eq, scalbn_spec]
+  have : (Int32.ofInt (clampI32 n.toInt)).toInt = clampI32 n.toInt := by
+    apply Int32.toInt_ofInt_of_le <;> (unfold clampI32 clampInt; split <;> [skip; split] <;> omega)
+  rw [this]
+
+/-- on everything that is not a NaN, `scalebSpec` is `scalebD` -/
+theorem scalebSpec_of_not_nan (mode : Mode) (n : Int) (d : Datum) (h : d.isNaN = false) :
+    scalebSpec mode n d = scalebD mode n d := by
+  unfold scalebSpec; rw [h]; rfl
+
+-- 1·10^0 scaled by 5; a signalling NaN with a non-canonical payload; −∞ with trailing bits
+example : bid128_scalbn ⟨1, 0x3040000000000000⟩ 5 .NearestEven 7 = .ok (⟨1, 0x304a000000000000⟩, 7) := by rfl
+example : bid128_scalbn ⟨5, 0x7e00400000000000⟩ 5 .NearestEven 0 = .ok (⟨5, 0x7c00000000000000⟩, 1) := by rfl
+example : bid128_scalbn ⟨9, 0xf800000000000001⟩ (-5) .Upward 0 = .ok (⟨0, 0xf800000000000000⟩, 0) := by rfl
+-- a zero far below the range: clamped, no flag (D10's mechanism does not arise here)
+example : bid128_ldexp ⟨0, 0x0000000000000000⟩ (-2147483648) .Upward 0 = .ok (⟨0, 0⟩, 0) := by rfl
+-- gradual underflow: 123456·10^-6176 scaled by -3
+example : bid128_scalbn ⟨123456, 0⟩ (-3) .NearestEven 0 = .ok (⟨123, 0⟩, 0x30) := by rfl
+-- the D3 case: −999999999999997·10^6070 scaled by 60 is representable with 19 padding zeros (through the loop)
+example : bid128_scalbn (ofBits (encode (.fin true 999999999999997 6070))) 60 .NearestEven 0
+    = .ok (ofBits (encode (.fin true (999999999999997 * 10 ^ 19) 6111)), 0) := by
+  rw [scalbn_spec]
+  apply congrArg Except.ok
+  decide +kernel
+-- ... and by 61 it overflows
+example : bid128_scalbln (ofBits (encode (.fin true 999999999999997 6070))) 4294967296 .TowardZero 0
+    = .ok (ofBits (encode (.fin true (10 ^ 34 - 1) 6111)), 0x28) := by
+  rw [scalbln_spec]
+  apply congrArg Except.ok
+  decide +kernel
 
 end Dec.C11GenScale
